@@ -376,7 +376,7 @@ func runCluster19(raw json.RawMessage) (res any, err error) {
 		if d.name, err = gets(o[0]); err != nil {
 			return nil, err
 		}
-		need := map[string]int{"activate": 5, "spawn": 4, "deactivate": 5, "snap": 2, "join": 2, "leave": 2}[d.name]
+		need := map[string]int{"activate": 5, "spawn": 4, "deactivate": 5, "snap": 2, "join": 2, "leave": 2, "join_to": 3}[d.name]
 		if need == 0 || len(o) != need {
 			return nil, fmt.Errorf("bad op %s", string(o[0]))
 		}
@@ -399,6 +399,11 @@ func runCluster19(raw json.RawMessage) (res any, err error) {
 			if err = json.Unmarshal(o[1], &d.ids); err != nil {
 				return nil, err
 			}
+		case "join_to":
+			d.node, _ = geti(o[1])
+			if err = json.Unmarshal(o[2], &d.ids); err != nil {
+				return nil, err
+			}
 		default:
 			d.node, _ = geti(o[1])
 		}
@@ -412,6 +417,7 @@ func runCluster19(raw json.RawMessage) (res any, err error) {
 		ops = append(ops, d)
 	}
 
+	var only map[int]bool // when set: the member list is sent to these nodes only (a membership change that spreads)
 	snapshot := func(ids []int) error {
 		want := map[int]bool{}
 		for _, i := range ids {
@@ -437,6 +443,9 @@ func runCluster19(raw json.RawMessage) (res any, err error) {
 		}
 		ns := w.sortedNodes()
 		for _, n := range ns {
+			if only != nil && !only[n.idx] {
+				continue
+			}
 			ms := make([]*cluster.Member, 0, len(ns))
 			for _, m := range ns {
 				ms = append(ms, m.cl.Member())
@@ -524,6 +533,23 @@ func runCluster19(raw json.RawMessage) (res any, err error) {
 			}
 		case "snap":
 			if err = snapshot(d.ids); err != nil {
+				return nil, err
+			}
+		case "join_to":
+			// node d.node is (or becomes) a member; only the agents of d.ids are told the member list now
+			ids := []int{d.node}
+			for i := range w.nodes {
+				if i != d.node {
+					ids = append(ids, i)
+				}
+			}
+			only = map[int]bool{}
+			for _, i := range d.ids {
+				only[i] = true
+			}
+			err = snapshot(ids)
+			only = nil
+			if err != nil {
 				return nil, err
 			}
 		}
